@@ -24,20 +24,24 @@ type SecArg struct {
 }
 
 type c17Case struct {
-	Proto      string
-	Codec      string // json | pb
-	Kind       string // call | push
-	Unknown    bool   // the request is served by the peer's unknown-call / unknown-push handler (it binds the raw body itself)
-	RouteLevel bool   // the receiving peer attaches the secure plugin to its routes instead of peer-wide
-	RawResult  bool   // the caller receives the reply body as raw bytes (*[]byte result)
-	Secure     bool   // WithSecureMeta on the request
-	Accept     string // "" | "true" | "false"  (WithAcceptSecureMeta)
-	KeyLen     int
-	SameKey    bool
-	ReqMarker  string
-	ResMarker  string
-	HandlerOK  bool
-	Enforce    bool // the call handler marks its reply secure itself (secure.EnforceSecure on the reply message)
+	Proto   string
+	Codec   string // json | pb
+	Kind    string // call | push
+	Unknown bool   // the request is served by the peer's unknown-call / unknown-push handler (it binds the raw body itself)
+	// how the two peers were built (phist_test.go): where and when the secure plugin was installed,
+	// and the registering step of the receiving peer's handler that the message goes to
+	SrvHist   phHistory
+	CliHist   phHistory
+	Probe     int
+	RawResult bool   // the caller receives the reply body as raw bytes (*[]byte result)
+	Secure    bool   // WithSecureMeta on the request
+	Accept    string // "" | "true" | "false"  (WithAcceptSecureMeta)
+	KeyLen    int
+	SameKey   bool
+	ReqMarker string
+	ResMarker string
+	HandlerOK bool
+	Enforce   bool // the call handler marks its reply secure itself (secure.EnforceSecure on the reply message)
 }
 
 func genC17(t *rapid.T, protos []vt.NamedProto) c17Case {
@@ -49,23 +53,49 @@ func genC17(t *rapid.T, protos []vt.NamedProto) c17Case {
 		}
 		return rapid.StringMatching(`[A-Za-z0-9]{24}`).Draw(t, label)
 	}
-	return c17Case{
-		Proto:      rapid.SampledFrom(protos).Draw(t, "proto").Name,
-		Codec:      rapid.SampledFrom([]string{"json", "pb"}).Draw(t, "codec"),
-		Kind:       rapid.SampledFrom([]string{"call", "call", "call", "push"}).Draw(t, "kind"),
-		Secure:     rapid.Bool().Draw(t, "secure"),
-		Accept:     rapid.SampledFrom([]string{"", "true", "false"}).Draw(t, "accept"),
-		KeyLen:     rapid.SampledFrom([]int{16, 24, 32}).Draw(t, "keylen"),
-		SameKey:    rapid.IntRange(0, 3).Draw(t, "samekey") != 0,
-		ReqMarker:  mk("reqmarker"),
-		ResMarker:  mk("resmarker"),
-		HandlerOK:  rapid.IntRange(0, 4).Draw(t, "handlerok") != 0,
-		Unknown:    rapid.IntRange(0, 3).Draw(t, "unknown") == 0,
-		RawResult:  rapid.IntRange(0, 3).Draw(t, "rawresult") == 0,
-		RouteLevel: rapid.IntRange(0, 2).Draw(t, "routelevel") == 0,
-		Enforce:    rapid.IntRange(0, 3).Draw(t, "enforce") == 0,
+	c := c17Case{
+		Proto:     rapid.SampledFrom(protos).Draw(t, "proto").Name,
+		Codec:     rapid.SampledFrom([]string{"json", "pb"}).Draw(t, "codec"),
+		Kind:      rapid.SampledFrom([]string{"call", "call", "call", "push"}).Draw(t, "kind"),
+		Secure:    rapid.Bool().Draw(t, "secure"),
+		Accept:    rapid.SampledFrom([]string{"", "true", "false"}).Draw(t, "accept"),
+		KeyLen:    rapid.SampledFrom([]int{16, 24, 32}).Draw(t, "keylen"),
+		SameKey:   rapid.IntRange(0, 3).Draw(t, "samekey") != 0,
+		ReqMarker: mk("reqmarker"),
+		ResMarker: mk("resmarker"),
+		HandlerOK: rapid.IntRange(0, 4).Draw(t, "handlerok") != 0,
+		Unknown:   rapid.IntRange(0, 3).Draw(t, "unknown") == 0,
+		RawResult: rapid.IntRange(0, 3).Draw(t, "rawresult") == 0,
+		Enforce:   rapid.IntRange(0, 3).Draw(t, "enforce") == 0,
 	}
+	// the receiving peer: the secure plugin is given to NewPeer, appended to the peer's container
+	// at a drawn point of the history (left / right; or removed and appended again), attached to
+	// SubRoute groups or to handlers; the handlers live at nesting 0-3, registered before or
+	// after the plugin came in. The message goes to a handler that has the plugin on its chain.
+	sg := genPHistory(t, "srv", phGenCfg{NCall: 2, NPush: 2, MaxDepth: 3, MaxSteps: 8, GroupPlugs: 1, RoutePlugs: 1, Unknown: true,
+		Targets: []phTarget{{Name: c17Secure, How: []string{"new", "new", "left", "left", "right", "right", "group", "route", "reinstall"}}}})
+	fn := 0
+	if c.Codec == "pb" {
+		fn = 1
+	}
+	c.Probe = -1
+	if c.Unknown {
+		if c.Probe = sg.ensureRoute("u"+c.Kind, 0, c17Secure); c.Probe < 0 {
+			c.Unknown = false // a group's plugin does not cover the unknown handlers
+		}
+	}
+	if !c.Unknown {
+		c.Probe = sg.ensureRoute(c.Kind, fn, c17Secure)
+	}
+	c.SrvHist = sg.H
+	// the sending peer uses the plugin peer-wide (its writes and reply reads run on the peer's
+	// container), installed early or late among routes of its own
+	c.CliHist = genPHistory(t, "cli", phGenCfg{NCall: 3, NPush: 2, MaxDepth: 2, MaxSteps: 5, GroupPlugs: 1, RoutePlugs: 1, Unknown: true,
+		Targets: []phTarget{{Name: c17Secure, How: []string{"new", "new", "left", "right", "reinstall"}}}}).H
+	return c
 }
+
+const c17Secure = "secure(encrypt/decrypt)" // the plugin's name
 
 var c17 struct {
 	sync.Mutex
@@ -153,21 +183,9 @@ func runC17(c c17Case, protos []vt.NamedProto) []string {
 	const statCode = 9100
 	w := vt.NewWorld()
 	defer w.Close()
-	// the receiving peer has the plugin peer-wide, or on its routes only (as the plugin's README does)
-	var srvGlobal, routePlug []erpc.Plugin
-	if c.RouteLevel {
-		routePlug = []erpc.Plugin{secure.NewPlugin(statCode, keyB)}
-	} else {
-		srvGlobal = []erpc.Plugin{secure.NewPlugin(statCode, keyB)}
-	}
-	srv := w.Peer(erpc.PeerConfig{}, srvGlobal...)
-	cli := w.Peer(erpc.PeerConfig{}, secure.NewPlugin(statCode, keyA))
-	routes := map[string]string{
-		"call-json": srv.RouteCallFunc(C17Json, routePlug...), "call-pb": srv.RouteCallFunc(C17Pb, routePlug...),
-		"push-json": srv.RoutePushFunc(C17PushJson, routePlug...), "push-pb": srv.RoutePushFunc(C17PushPb, routePlug...),
-	}
+	srvFns := phFns{Call: []interface{}{C17Json, C17Pb}, Push: []interface{}{C17PushJson, C17PushPb}}
 	// unknown-call / unknown-push handlers bind the raw body themselves
-	srv.SetUnknownCall(func(ctx erpc.UnknownCallCtx) (interface{}, *erpc.Status) {
+	srvFns.UCall = func(ctx erpc.UnknownCallCtx) (interface{}, *erpc.Status) {
 		var marker string
 		if ctx.GetBodyCodec() == 'j' {
 			a := new(SecArg)
@@ -196,8 +214,8 @@ func runC17(c c17Case, protos []vt.NamedProto) []string {
 			ctx.SetMeta(secure.SECURE_META_KEY, "true")
 		}
 		return &secure.Encrypt{Ciphertext: r}, nil
-	}, routePlug...)
-	srv.SetUnknownPush(func(ctx erpc.UnknownPushCtx) *erpc.Status {
+	}
+	srvFns.UPush = func(ctx erpc.UnknownPushCtx) *erpc.Status {
 		var marker string
 		if ctx.GetBodyCodec() == 'j' {
 			a := new(SecArg)
@@ -213,7 +231,19 @@ func runC17(c c17Case, protos []vt.NamedProto) []string {
 		c17.gotReq = marker
 		c17.Unlock()
 		return nil
-	}, routePlug...)
+	}
+	// both peers are built along their installation histories
+	plugs := func(key string) func(string) erpc.Plugin {
+		return func(name string) erpc.Plugin {
+			if name == c17Secure {
+				return secure.NewPlugin(statCode, key)
+			}
+			return phNoisePlugin(name)
+		}
+	}
+	sb := phBuild(w, erpc.PeerConfig{}, c.SrvHist, plugs(keyB), srvFns)
+	srv := sb.Peer
+	cli := phBuild(w, erpc.PeerConfig{}, c.CliHist, plugs(keyA), phLibFns).Peer
 	l := w.Connect(cli, srv, protoByName(protos, c.Proto), func(p *vt.Pair) {
 		p.SetCapture(vt.AtoB, true)
 		p.SetCapture(vt.BtoA, true)
@@ -253,7 +283,7 @@ func runC17(c c17Case, protos []vt.NamedProto) []string {
 		// the handler marked the reply secure itself: a message marked secure is encrypted
 		replyEncrypted, replyUnspecified = true, false
 	}
-	route := routes[c.Kind+"-"+c.Codec]
+	route := sb.Paths[c.Probe]
 	if c.Unknown {
 		route = "/not/registered/" + c.Kind
 	}
@@ -369,7 +399,7 @@ func runC17(c c17Case, protos []vt.NamedProto) []string {
 	return fails
 }
 
-const ruleC17 = "both peers run the secure plugin (the receiving one peer-wide or attached to its routes; key length 16/24/32, equal or different keys); one call or push per case with body codec json or protobuf, a 24-character random marker (or, one time in five, an empty one: the protobuf body then marshals to zero bytes) in the argument and another in the result, request marked secure or not, served by a typed handler or by the unknown-call / unknown-push handler (which binds the raw body itself), result received typed or as raw bytes, accept-secure marker absent/true/false, handler succeeding or failing, and in a quarter of the cases marking its reply secure itself (secure.EnforceSecure / the X-Secure reply metadata); oracle: with decipherable traffic the handler sees the original argument and the caller the original result; with a different key the handler is not invoked (or the result not delivered) and the status carries the plugin's code; wire capture of both directions: a marker that must be encrypted never occurs (raw, hex, base64), a marker of an unmarked message does occur; the reply of (secure request, accept=false) is not asserted either way; non-trivial = at least one frame must be encrypted; distinct by case"
+const ruleC17 = "both peers run the secure plugin (key length 16/24/32, equal or different keys) and are built along generated installation histories: the receiving peer got the plugin through NewPeer, through AppendLeft / AppendRight at a drawn point among its registrations (or through NewPeer, Remove and a later append), attached to SubRoute groups or attached to handlers, its handlers are registered at nesting 0-3 of SubRoute groups before or after the plugin came in, next to other plugins appended, removed and attached to groups and routes, and the message goes to a drawn handler that has the plugin on its chain; the sending peer got it through NewPeer or a late append among routes of its own; one call or push per case with body codec json or protobuf, a 24-character random marker (or, one time in five, an empty one: the protobuf body then marshals to zero bytes) in the argument and another in the result, request marked secure or not, served by a typed handler or by the unknown-call / unknown-push handler (which binds the raw body itself), result received typed or as raw bytes, accept-secure marker absent/true/false, handler succeeding or failing, and in a quarter of the cases marking its reply secure itself (secure.EnforceSecure / the X-Secure reply metadata); oracle: with decipherable traffic the handler sees the original argument and the caller the original result; with a different key the handler is not invoked (or the result not delivered) and the status carries the plugin's code; wire capture of both directions: a marker that must be encrypted never occurs (raw, hex, base64), a marker of an unmarked message does occur; the reply of (secure request, accept=false) is not asserted either way; non-trivial = at least one frame must be encrypted; distinct by case"
 
 func TestC17Secure(t *testing.T) {
 	rec := vt.NewRec(t, "C17", "secure", ruleC17)
@@ -377,7 +407,18 @@ func TestC17Secure(t *testing.T) {
 	rapid.Check(t, func(t *rapid.T) {
 		c := genC17(t, protos)
 		nt := c.Secure || c.Accept == "true" || c.Enforce && c.Kind == "call"
-		rec.Case(fmt.Sprintf("%+v", c), nt, "kind="+c.Kind, "codec="+c.Codec, fmt.Sprintf("secure=%v", c.Secure), "accept="+c.Accept, fmt.Sprintf("samekey=%v", c.SameKey), fmt.Sprintf("enforce=%v", c.Enforce))
+		classes := []string{"kind=" + c.Kind, "codec=" + c.Codec, fmt.Sprintf("secure=%v", c.Secure), "accept=" + c.Accept, fmt.Sprintf("samekey=%v", c.SameKey), fmt.Sprintf("enforce=%v", c.Enforce)}
+		in := c.SrvHist.install(c17Secure)
+		classes = append(classes, in.classes("receiver-plugin")...)
+		classes = append(classes, "sender-plugin="+c.CliHist.install(c17Secure).How)
+		if r, ok := c.SrvHist.routeAt(c.Probe); ok {
+			when := "after"
+			if r.Step < in.Step {
+				when = "before"
+			}
+			classes = append(classes, fmt.Sprintf("handler=%s/depth=%d", r.Kind, r.Depth), fmt.Sprintf("receiver-plugin=%s/handler-depth=%d/registered-%s-the-plugin", in.How, r.Depth, when))
+		}
+		rec.Case(fmt.Sprintf("%+v", c), nt, classes...)
 		if rec.WantSample() && nt {
 			rec.Sample(c)
 		}
